@@ -79,6 +79,9 @@ pub struct Penalty {
     /// per destination: the instant the pair's worker was first free to process the report (it does not poll
     /// the issue channel while a lookup is outstanding and applies the full penalty at processing time)
     pub t_eff: Vec<Option<u64>>,
+    /// false: the stack may have ignored it as a duplicate (an identical report lies within the dedup window, but the
+    /// bounded issue memory may have forgotten it meanwhile): counts for upper bounds only
+    pub certain: bool,
 }
 
 pub struct WorkerInfo {
@@ -119,6 +122,14 @@ pub struct Hist<'a> {
     pub reports_during_lookup: usize,
     /// stack mode: sends and failure reports go through the real path-aware socket (see stack.rs)
     pub stack: Option<crate::stack::StackSide>,
+}
+
+/// A path for which a metadata-dependent policy cannot be evaluated.
+pub fn unevaluable(p: &ScionPath) -> bool {
+    match p.metadata() {
+        None => true,
+        Some(m) => m.interfaces.as_ref().map(|i| i.is_empty()).unwrap_or(true),
+    }
 }
 
 pub fn fp_str(p: &ScionPath) -> String {
@@ -327,7 +338,7 @@ impl<'a> Hist<'a> {
         if self.stack.is_some() {
             self.sim.log(format!("report via socket {rep:?}"));
             self.stack_report(&rep);
-            self.penalties.push(Penalty { report: rep, t_ns: self.sim.now_ns(), step: self.sim.with(|s| s.steps), t_eff: vec![None; self.n_dst] });
+            self.penalties.push(Penalty { report: rep, t_ns: self.sim.now_ns(), step: self.sim.with(|s| s.steps), t_eff: vec![None; self.n_dst], certain: true });
             self.reports_since_worker_step += 1;
             return;
         }
@@ -352,7 +363,7 @@ impl<'a> Hist<'a> {
             }
             drop(mgr);
         });
-        self.penalties.push(Penalty { report: rep, t_ns: self.sim.now_ns(), step: self.sim.with(|s| s.steps), t_eff: vec![None; self.n_dst] });
+        self.penalties.push(Penalty { report: rep, t_ns: self.sim.now_ns(), step: self.sim.with(|s| s.steps), t_eff: vec![None; self.n_dst], certain: true });
         self.reports_since_worker_step += 1;
     }
 
@@ -395,7 +406,23 @@ impl<'a> Hist<'a> {
                         sim.fault("path-without-metadata");
                     }
                     let expiry = now + life;
-                    let p = build_path(&self.routes[*ri], expiry, !no_meta);
+                    let mut p = build_path(&self.routes[*ri], expiry, !no_meta);
+                    if no_meta {
+                        // three ways in which a policy cannot be evaluated: no metadata at all, metadata without an
+                        // interface list, metadata with an empty interface list
+                        let full = build_path(&self.routes[*ri], expiry, true);
+                        match sim.idx(3) {
+                            0 => {}
+                            k => {
+                                if let Some(m) = full.metadata() {
+                                    let mut m = m.clone();
+                                    m.interfaces = if k == 1 { None } else { Some(Vec::new()) };
+                                    p = ScionPath::new(full.src_ia(), full.dst_ia(), full.dp_path().clone(), Some(m), None);
+                                    sim.probe(if k == 1 { "path-with-metadata-but-no-interface-list" } else { "path-with-empty-interface-list" });
+                                }
+                            }
+                        }
+                    }
                     v.push(p);
                     // duplicate fingerprint with a different expiry in the same result
                     if !benign && self.faults_enabled && sim.chance(1, 12) {
@@ -437,7 +464,7 @@ impl<'a> Hist<'a> {
         let o = self.draw_outcome(pair, benign);
         self.note_outcome(pair, &o);
         let desc = match &o {
-            Outcome::Ok(v) => format!("ok[{}]", v.iter().map(|p| format!("{}@{}{}", self.route_name(p), p.expiration().unwrap_or(0) as i64 - self.now_secs() as i64, if p.metadata().is_none() { "!nometa" } else { "" })).collect::<Vec<_>>().join(",")),
+            Outcome::Ok(v) => format!("ok[{}]", v.iter().map(|p| format!("{}@{}{}", self.route_name(p), p.expiration().unwrap_or(0) as i64 - self.now_secs() as i64, if unevaluable(p) { "!nometa" } else { "" })).collect::<Vec<_>>().join(",")),
             Outcome::Err => "error".into(),
         };
         self.sim.log(format!("lookup.done #{id} {desc}"));
@@ -650,7 +677,7 @@ impl<'a> Hist<'a> {
                     if p.src_ia() != h.pair.0 || p.dst_ia() != h.pair.1 {
                         self.violate("C05/wrong-endpoints", format!("asked {}->{} got {}->{}", h.pair.0, h.pair.1, p.src_ia(), p.dst_ia()))?;
                     }
-                    if self.policies.needs_metadata && p.metadata().is_none() {
+                    if self.policies.needs_metadata && unevaluable(p) {
                         self.violate("C05/no-metadata-path-returned", format!("path {name} without metadata handed out under policy {}", self.policies.desc))?;
                     }
                     if !self.policies.accepts(p) {
